@@ -9,7 +9,9 @@ From Coq Require Import List Arith ZArith Bool.
 From Verif Require Import lib.Wire c15.Lts c15.Model c15.Spec c15.Proofs c15.Proofs_Chan c15.Proofs_Loc
   c15.Proofs_List c15.Proofs_Safe c15.Proofs_Init c15.Proofs_Once c15.Proofs_Thm c15.Proofs_Grow
   c15.Proofs_First c15.Proofs_Wild c15.Proofs_Live c15.Proofs_Dead c15.Proofs_Pend c15.Proofs_Idx c15.Proofs_Prog
-  c15.Proofs_Valid c15.Proofs_WildOK c15.Proofs_Blk c15.Proofs_Obs c15.Proofs_Loc3 c15.Proofs_WSI c15.Proofs_TY c15.Proofs_Rule13 c15.Proofs_Reads.
+  c15.Proofs_Valid c15.Proofs_WildOK c15.Proofs_Blk c15.Proofs_Obs c15.Proofs_Loc3 c15.Proofs_WSI c15.Proofs_TY c15.Proofs_Rule13 c15.Proofs_Reads
+  c15.Proofs_Wire c15.Proofs_Disc c15.Proofs_Mon c15.Proofs_Cpl c15.Proofs_RCtx c15.Proofs_Prom c15.Proofs_R3 c15.Proofs_CEv c15.Proofs_ChI c15.Proofs_R5 c15.Proofs_Loc4 c15.Proofs_R4
+  c15.Proofs_RegA c15.Proofs_RegB c15.Proofs_RegW c15.Proofs_RegRun c15.Proofs_MD c15.Proofs_RF c15.Proofs_R9 c15.Proofs_R7 c15.Proofs_Head.
 Import ListNotations.
 
 (* the checked tie: a label trace accepted by conform_case's search is the
@@ -279,6 +281,92 @@ Theorem c15_former_deadlock_completes :
   (exists m, nth_error (emitters st) 1 = Some m /\ mnew m = 4) /\ panicked st = false.
 Proof. exact former_deadlock_completes_l. Qed.
 Print Assumptions c15_former_deadlock_completes.
+
+(* ==== THE MONITOR ON MODEL TRACES: wire format, discipline, one theorem per rule ===========
+   Setting of the headline: cfg any well-formed configuration (cfg_wf), sched any DISCIPLINED
+   schedule (a stimulus - the start of an operation, a receive request - is taken only in a
+   quiescent state: how the harness drives the real bus and what conform_case searches for),
+   wire_of_run = the wire line the harness would write for that run (configuration, labels,
+   optional end marker).  read_rule_ok r / quiet_rule_ok r: the monitor's own functions
+   d_check_read / d_check_quiet never answer r at a step of such a run. *)
+
+(* the wire format round trip: what monitor_case decodes is what was encoded *)
+Theorem c15_wire_round_trip : forall c ls, nonneg (c_ntypes c) = true -> decode (encode c ls) = Some (c, ls).
+Proof. exact decode_encode. Qed.
+Print Assumptions c15_wire_round_trip.
+
+Theorem c15_wire_labels_round_trip : forall tr fin, forallb op_label tr = true -> (fin = 0 \/ fin = 4 \/ fin = 5)%Z ->
+  wire_labels (wire_of tr fin) = Some (tr, fin).
+Proof. exact wire_labels_of. Qed.
+Print Assumptions c15_wire_labels_round_trip.
+
+Theorem c15_monitor_case_on_runs : forall c sched fin, cfg_wf c = true -> nonneg (c_ntypes c) = true -> (fin = 0 \/ fin = 4 \/ fin = 5)%Z ->
+  monitor_case (wire_of_run c sched fin) = d_monitor (dcfg_of_cfg c) (trace step (init_of c) sched) fin.
+Proof. exact monitor_case_run. Qed.
+Print Assumptions c15_monitor_case_on_runs.
+
+(* harness-shaped runs are disciplined: the run conform_case finds for an accepted label list *)
+Theorem c15_accepted_run_is_disciplined : forall fuel st tr, accepted fuel st tr = true ->
+  exists sched, trace step st sched = tr /\ disciplined step thrs stim st sched.
+Proof. exact accepted_disciplined. Qed.
+Print Assumptions c15_accepted_run_is_disciplined.
+
+(* rules 1-3: a reported value is the event of a started, not failed Emit of a subscribed type *)
+Theorem c15_monitor_rule1 : read_rule_ok 1. Proof. exact rule1_ok. Qed.
+Print Assumptions c15_monitor_rule1.
+Theorem c15_monitor_rule2 : read_rule_ok 2. Proof. exact rule2_ok. Qed.
+Print Assumptions c15_monitor_rule2.
+Theorem c15_monitor_rule3 : read_rule_ok 3. Proof. exact rule3_ok. Qed.
+Print Assumptions c15_monitor_rule3.
+(* rule 4: nothing is delivered to a receive that started after Close returned (uses the discipline) *)
+Theorem c15_monitor_rule4 : read_rule_ok 4. Proof. exact rule4_ok. Qed.
+Print Assumptions c15_monitor_rule4.
+(* rule 5: no duplicates *)
+Theorem c15_monitor_rule5 : read_rule_ok 5. Proof. exact rule5_ok. Qed.
+Print Assumptions c15_monitor_rule5.
+(* rule 7: no event is overtaken by the event of a later, non-overlapping Emit *)
+Theorem c15_monitor_rule7 : read_rule_ok 7. Proof. exact rule7_ok. Qed.
+Print Assumptions c15_monitor_rule7.
+(* rule 9: Emit does not return while a subscriber's channel is full (no drop) *)
+Theorem c15_monitor_rule9 : quiet_rule_ok 9. Proof. exact rule9_ok. Qed.
+Print Assumptions c15_monitor_rule9.
+(* rule 12 from rule 13: at the end marker (final_ok) nothing is left in flight *)
+Theorem c15_monitor_rule12_from_rule13 : forall o tr, all_closing tr (length (o_sub o)) -> all_subscribed tr (length (o_sub o)) ->
+  blocked_badly o tr = None -> existsb (fun t => o_started tr t && negb (o_returned tr t)) (o_ops o) = false.
+Proof. exact rule12_from_13. Qed.
+Print Assumptions c15_monitor_rule12_from_rule13.
+
+(* the invariants the rule theorems rest on, for every schedule of every well-formed configuration *)
+Theorem c15_promise_provenance : forall st sched, wf_init st -> NoDup (map eev (emits st)) -> Prom (run step st sched) (trace step st sched).
+Proof. exact prom_run. Qed.
+Print Assumptions c15_promise_provenance.
+Theorem c15_node_registration : forall c s1, cfg_wf c = true -> RegA (St c s1).
+Proof. exact rega_cfg. Qed.
+Print Assumptions c15_node_registration.
+Theorem c15_must_deliver : forall c s1, cfg_wf c = true -> MD (St c s1) (Tr c s1).
+Proof. exact md_cfg. Qed.
+Print Assumptions c15_must_deliver.
+Theorem c15_emit_never_drops : forall c s1 s cs k e, cfg_wf c = true -> nth_error (subs (St c s1)) s = Some cs -> nth_error (emits (St c s1)) k = Some e ->
+  a_fresh (Tr c s1) s k = true -> a_ok (Tr c s1) k = true -> o_started (Tr c s1) (TClose s) = false ->
+  (match styps cs with None => True | Some tys => exists m, nth_error (emitters (St c s1)) (eem e) = Some m /\ In (mty m) tys end) ->
+  In (eev e) (map snd (hist cs)).
+Proof. exact fresh_delivered. Qed.
+Print Assumptions c15_emit_never_drops.
+
+(* THE HEADLINE, _partial: for every well-formed configuration, every disciplined schedule and
+   fin = 0 (log stops) or fin = 5 (end marker written in a final_ok state: quiescent, every
+   returned Subscribe closing, no Subscribe still in flight - the last condition excludes
+   exactly the known finding, see c15_no_deadlock_full_refuted), the monitor either accepts
+   the wire line of the run or names one of missing_rules.  MISSING (the only gap): the
+   coupling of the stateful-replay rules 6, 8 and of rule 10 (whose second half is the
+   replay clause) - on the model side they are covered by c15_stateful_replay_first,
+   c15_nothing_before_join and c15_exactly_once_in_order. *)
+Theorem c15_monitor_accepts_model_partial : forall c sched fin,
+  cfg_wf c = true -> nonneg (c_ntypes c) = true -> Disc c sched ->
+  (fin = 0 \/ (fin = 5 /\ final_ok c sched))%Z ->
+  allowed missing_rules (monitor_case (wire_of_run c sched fin)).
+Proof. exact monitor_accepts_model_partial_l. Qed.
+Print Assumptions c15_monitor_accepts_model_partial.
 
 (* ---- non-vacuity ------------------------------------------------------------- *)
 (* one stateful emitter of type 0, one typed subscription (buffer 1), events 100
